@@ -259,6 +259,10 @@ func (w *watchers) handlersIngress() []*hdlr {
 		{
 			typ: &networking.IngressClass{},
 			res: types.ResourceIngressClass,
+			// an IngressClass change can change the validity of any ingress, including
+			// the ones that were never parsed, hence not tracked, because their class
+			// was missing or belonged to another controller.
+			full: true,
 			pr: []predicate.Predicate{
 				predicate.GenerationChangedPredicate{},
 				predicate.Funcs{
